@@ -57,6 +57,9 @@ def run(idx, rep, tier):
     r45(idx, rep)
     r6(idx, rep)
     r7(idx, rep)
+    # "each once": a group run collects into its own run directory (data.csv is opened for append; a stale directory doubles the lines)
+    from . import c10
+    c10.run_state(idx, K.as_rule(rep, "R4"), "R4")
     rep.stats["exhaustive"] = True
 
 
